@@ -186,7 +186,7 @@ func (g *c15Gen) text() c15Text {
 	}
 	sb.WriteString(lead)
 	n := 1
-	if g.pct(35) {
+	if g.pct(45) {
 		n = 2 + g.n(2)
 	}
 	havePragma := false
@@ -228,7 +228,19 @@ func (g *c15Gen) text() c15Text {
 }
 
 // blame priority for the signature (most specific outer feature first)
-var c15VectorOrder = []string{"later-statement", "leading-comment", "leading-semicolon", "leading-bom", "comment-after-keyword", "string-name", "quoted-name", "quoted-schema", "spaced-dot", "call-syntax", "schema-prefix"}
+// c15Bait: statements on which a tokenizer that is not exactly SQLite's goes wrong. SQLite has no backslash
+// escapes; ” "" “ double inside their own quotes; [ ] does not nest or double; comment markers inside
+// strings and quotes inside comments mean nothing.
+var c15Bait = []string{
+	`SELECT '\'`, `SELECT 'a\'`, `SELECT '\\'`, `SELECT '\', 2`, `SELECT 'x' WHERE 'y\' <> ''`, `INSERT INTO t(v) VALUES ('c:\dir\')`,
+	`SELECT 'it''s'`, `SELECT ''''`, `SELECT ''`, `SELECT '--'`, `SELECT '/*'`, `SELECT '*/'`, `SELECT ';'`, `SELECT ']'`, `SELECT '['`, `SELECT '"'`, "SELECT '`'",
+	`SELECT 1 AS "a""b"`, `SELECT 1 AS "x;y"`, `SELECT 1 AS "q'r"`, `SELECT 1 AS "\"`, `SELECT 1 AS [a'b]`, `SELECT 1 AS [a"b]`, `SELECT 1 AS [\]`, `SELECT 1 AS [a;b]`,
+	"SELECT 1 AS `q'r`", "SELECT 1 AS `a``b`", "SELECT 1 AS `\\`",
+	`SELECT 1 /* ' */`, `SELECT 1 /* " */`, `SELECT 1 /* [ */`, "SELECT 1 -- '\n", "SELECT 1 -- \"\n", "SELECT 1 --[\n", `SELECT 1 /* -- */`, "SELECT 1 -- /*\n", `SELECT 1 /* ; */`,
+	`SELECT x'27'`, `SELECT 1e1, .5, 0x1F`, `SELECT 'é\'`, `SELECT "v" FROM t WHERE v <> '\'`,
+}
+
+var c15VectorOrder = []string{"lexical-bait", "later-statement", "leading-comment", "leading-semicolon", "leading-bom", "comment-after-keyword", "string-name", "quoted-name", "quoted-schema", "spaced-dot", "call-syntax", "schema-prefix"}
 
 func c15Vector(texts []c15Text) (vector, pragma string) {
 	best := len(c15VectorOrder) + 1
